@@ -1,7 +1,7 @@
 """Rules about the clone command's control flow (anchored on the function that wraps a file into CloneOutput)."""
 from ..facts import callee_q, succs
 from ..paths import Explorer
-from ..terms import Terms, simplify, has_call, has_call_deep, has_field, show
+from ..terms import Terms, simplify, has_call, has_call_deep, has_field, show, walk
 from ..callgraph import CallGraph
 from .r_steps import (GuardedStep, guard_from_bool_call, guard_block_device, origin_block_device, guard_from_bool_field, guard_from_option_field,
                       hash_compare_sites, exit_outcomes_from, OK_OUTCOMES)
@@ -126,6 +126,13 @@ def run(facts, cg=None):
                     tb = simplify(T.of_operand(b, st['rv']['b']))
                     if (is_size(ta) and is_need(tb)) or (is_size(tb) and is_need(ta)):
                         size_cmp.add(bi)
+                        # the two sizes are compared as they are: rounding either side (sectors, MiB) lets a device through that is
+                        # short by less than the unit
+                        for x in (ta, tb):
+                            ar = [n_ for n_ in walk(x) if n_[0] == 'binop' and n_[1] in ('Div', 'Shr', 'Rem', 'Mul', 'Sub', 'Add', 'BitAnd')]
+                            if ar:
+                                finding('R-SIZECHECK', b, 'rounded', 'the device size check at %s compares values that went through %s: a device that is too small by '
+                                        'less than the rounding unit passes and is written until it is full' % (st['loc'], sorted({a_[1] for a_ in ar})))
             t = b.blocks[bi]['term']
             # the same comparison spelled as a call: size.cmp(&need), size.lt(&need), ...
             if t['k'] == 'call' and 'q' in t['callee'] and t['callee']['q'] in CMP_CALLS and len(t['args']) == 2:
